@@ -144,7 +144,7 @@ func c06Single(c *Ctx, mem, twin *mon.Mem, pre z80.States, halted bool, k irqKin
 				exp.PC = uint16(k.Data[1]) | uint16(k.Data[2])<<8
 			}
 		}
-		got := cpu.States
+		got := Arch(cpu.States)
 		got.IR.Lo = exp.IR.Lo
 		pcOK := got.PC == exp.PC
 		for _, a := range altPC {
